@@ -17,4 +17,8 @@ CHECKS = {
                 technique="exhaustive enumeration of caller-consistent operation/time histories on the real breakers under a frozen virtual clock against a reference automaton (plus recovery liveness from every reached state), and preemption-bounded exhaustive interleaving exploration of racing callers",
                 text="All histories to depth 7 (9 thorough) over ask/outcome/time events for the health, engine and unifier breakers (4 configurations) are executed on the real objects; every ask answer must be explained by the statement's reference automaton and every reached state must close again once calls succeed. Half-open admission races and failure||success races are explored over all interleavings within 3 preemptions (unbounded thorough).",
                 note="Clock seam via build-time rewrite of time.Now/Since in the three breaker files; engine breaker reached through Service.GetCircuitBreaker via an overlay-injected in-package accessor; boundaries avoided by the time alphabet."),
+    "C02": dict(pkg="c02", level="fault_enumeration", shards=12, engine="STACK",
+                technique="exhaustive fault-assignment enumeration over the assembled system (real sockets, byte-recording scripted backends)",
+                text="Every assignment of backend fault behaviours (ok, refuse, close before headers, close/RST after headers or k body bytes, garbage) to 1..3 endpoints x both engines x three proxy profiles x JSON/SSE responses (x three balancers thorough) is run through the booted olla; the client's bytes must come from exactly one attempt and no attempt may follow delivered bytes.",
+                note="Kernel-level timing of resets is not controlled (oracle insensitive); interleavings inside net/http are not explored."),
 }
